@@ -20,9 +20,21 @@ type c09Thread struct {
 }
 
 func c09Scenario(store, pre string, nChecks int, bound int) schedx.Scenario {
+	return c09ScenarioWith(store, pre, nChecks, bound, nil, true)
+}
+
+// c09ScenarioWith: ans = provider answer for the checks' token requests (nil = honest); withLogout=false replaces
+// the logout thread by one more check on the same session.
+func c09ScenarioWith(store, pre string, nChecks int, bound int, ans *world.Answer, withLogout bool) schedx.Scenario {
 	name := fmt.Sprintf("logout||%dx%s store=%s", nChecks, pre, store)
+	if !withLogout {
+		name = fmt.Sprintf("%dx%s store=%s", nChecks+1, pre, store)
+	}
+	if ans != nil {
+		name += " idp=" + ans.Name
+	}
 	return schedx.Scenario{
-		Name: name, Bound: bound,
+		Name: name, Bound: bound, PanicIsViolation: ans != nil || !withLogout,
 		Setup: func() *schedx.Instance {
 			w := world.New(world.Spec{Store: store, Forward: true, Logout: true})
 			sid := c15Prepare(w, pre)
@@ -39,18 +51,27 @@ func c09Scenario(store, pre string, nChecks int, bound int) schedx.Scenario {
 				path = c15CallbackPath(w)
 				kind = "callback"
 			}
+			if ans != nil {
+				// the judged property here is crash freedom only (C15): the logout-finality monitors stay silent
+				defer func() {}()
+			}
 			for i := 1; i < n; i++ {
 				ths[i] = &c09Thread{Kind: kind}
 			}
 			bodies := make([]func(), n)
 			bodies[0] = func() {
-				ths[0].Res = w.Do(world.Req{Path: world.LogoutPath, Cookie: sid}, world.Plan{})
+				if withLogout {
+					ths[0].Res = w.Do(world.Req{Path: world.LogoutPath, Cookie: sid}, world.Plan{})
+				} else {
+					ths[0].Kind = kind
+					ths[0].Res = w.Do(world.Req{Path: path, Cookie: sid}, world.Plan{Answer: ans})
+				}
 				ths[0].RetStep = vsched.Active().Steps()
 			}
 			for i := 1; i < n; i++ {
 				i := i
 				bodies[i] = func() {
-					ths[i].Res = w.Do(world.Req{Path: path, Cookie: sid}, world.Plan{})
+					ths[i].Res = w.Do(world.Req{Path: path, Cookie: sid}, world.Plan{Answer: ans})
 					ths[i].RetStep = vsched.Active().Steps()
 				}
 			}
@@ -61,7 +82,7 @@ func c09Scenario(store, pre string, nChecks int, bound int) schedx.Scenario {
 					var viols []schedx.Violation
 					var obs strings.Builder
 					lo := ths[0]
-					logoutAnswered := !lo.Res.OK && lo.Res.HTTPStatus == 302 && lo.Res.Location == world.LogoutRedirect
+					logoutAnswered := withLogout && ans == nil && !lo.Res.OK && lo.Res.HTTPStatus == 302 && lo.Res.Location == world.LogoutRedirect
 					fmt.Fprintf(&obs, "logout(code=%v http=%d)@%d", lo.Res.Code, lo.Res.HTTPStatus, lo.RetStep)
 					// which effective writes under sid came after the logout's RemoveSession
 					writer := ""
@@ -77,6 +98,12 @@ func c09Scenario(store, pre string, nChecks int, bound int) schedx.Scenario {
 						}
 						if removed && (c.Method == "SetTokenResponse" || c.Method == "SetAuthorizationState") {
 							writer = c.Caller + ">" + c.Method
+						}
+					}
+					for i := 0; i < n; i++ {
+						if p := ths[i].Res.Panic; p != "" && (ans != nil || !withLogout) {
+							viols = append(viols, schedx.Violation{Signature: "panic at=" + panicSite(ths[i].Res.Body) + " group=schedule",
+								Message: fmt.Sprintf("thread %d (%s) panicked: %s", i, ths[i].Kind, p)})
 						}
 					}
 					for i := 1; i < n; i++ {
